@@ -183,6 +183,8 @@ class Executor:
         self.heap_init = {}
         self.in_quant = 0
         self.exact_cls = {}
+        self.typed_reads = set()
+        self._sumdefs = {}
         self.cur_line = 0
         self.pc.append(self.alloc0 > 0)
 
@@ -360,10 +362,14 @@ class Executor:
         self._ref_facts(v)
         if isinstance(v, VSeq):
             # well-typed heap: declared element types of sequence fields hold for every stored sequence
-            try:
-                self.assume_type(v, self.field_type(fname, ref.cls))
-            except Unsupported:
-                pass
+            key = (fname, v.n.get_id() if hasattr(v.n, 'get_id') else None)
+            if key[1] is None or key not in self.typed_reads:
+                # (the same stored sequence read again - same z3 terms - needs no second copy of the quantified facts)
+                self.typed_reads.add(key)
+                try:
+                    self.assume_type(v, self.field_type(fname, ref.cls))
+                except Unsupported:
+                    pass
         return v
 
     def _ref_facts(self, v):
@@ -437,7 +443,7 @@ class Executor:
                 return z3.BoolVal(exc_is_subclass(v.py, cls, self.repo))
         raise Unsupported(f"isinstance({v!r}, {cls})")
 
-    def type_facts(self, v: V, ty: Ty):
+    def type_facts(self, v: V, ty: Ty, depth=0):
         """Type invariants of a value of declared type ty, as a list of z3 facts (nested sequences quantified)."""
         facts = []
         if isinstance(v, VRef):
@@ -448,13 +454,13 @@ class Executor:
                 facts.append(z3.Or(v.z == 0, self.isinstance_z(VRef(v.z, None), ty.cls)))
         elif isinstance(v, VSeq):
             facts.append(v.n >= (-1 if getattr(ty, 'nullable', False) else 0))
-            k = self.fresh_int('k')
-            inner = self.type_facts(sel(v.elem, k), ty.elem)
+            k = z3.Int(f'k!tf{depth}')      # canonical bound variable: identical facts are identical terms (deduplicated)
+            inner = self.type_facts(sel(v.elem, k), ty.elem, depth + 1)
             if inner:
                 facts.append(z3.ForAll([k], z3.Implies(z3.And(k >= 0, k < v.n), z3.And(inner))))
         elif isinstance(v, VTuple) and ty.kind == 'tuple':
             for it, ity in zip(v.items, ty.items):
-                facts += self.type_facts(it, ity)
+                facts += self.type_facts(it, ity, depth)
         return facts
 
     def assume_type(self, v: V, ty: Ty):
